@@ -26,7 +26,10 @@ InitSt == [inst |-> FALSE, cd |-> FALSE, cs |-> FALSE, storage |-> "memory",
 \*  others : reported context and probe of every earlier session, in order (connecting never disturbs them)
 Obs(res, me, probe, st) ==
   [res |-> res, me |-> me, probe |-> probe, dbs |-> st.dbs, schemas |-> st.schemas, files |-> st.disk,
-   others |-> [j \in 1..Len(st.sess) |-> <<st.sess[j].rdb, st.sess[j].rsc, st.sess[j].probe>>]]
+   others |-> [j \in 1..Len(st.sess) |-> <<st.sess[j].rdb, st.sess[j].rsc, st.sess[j].probe>>],
+   \* the table an earlier instance left in DiskDb (one row, a comment, a VARCHAR(9) column): once the database is attached it is
+   \* found exactly as it was left - connecting never disturbs existing data
+   kept |-> IF st.storage = "path_existing" /\ DiskDb \in st.dbs THEN "ok" ELSE "na"]
 
 ProbeOf(dset, sset) == IF ~dset THEN "nodb" ELSE IF ~sset THEN "nosc" ELSE "ctx"
 
